@@ -504,6 +504,15 @@ JUDGES = {}
 def run_replay(ctx, j, path):
     rp = json.load(open(path))
     s = rp["replay"]["scenario"]
+    if rp["replay"].get("mt"):
+        from . import mtlib
+        r = mtlib.run_scenarios([s])[0]
+        for (pid, what, sig) in mtlib.judge(s, r):
+            j.violation(pid, what, sig, rp["replay"])
+        print(json.dumps({k: v for k, v in r.items() if k != "log"})[:1500])
+        ctx.cov.update({"evaluations": 1, "distinct_nontrivial": 1, "rule": "replay of one recorded MT scenario"})
+        ctx.sample(s)
+        return ctx.finish()
     r = run_scenarios([s])[0]
     fam = s["fam"]
     if fam not in JUDGES:
@@ -1692,10 +1701,8 @@ def family_ref_to_ours(ctx, j, quick, rnd, pool):
             reps = 1 if quick else 3
             for _ in range(reps):
                 n = rnd.choice(sizes)
-                opt = {kk: v for kk, v in c.items() if kk != "extreme"}
+                opt = dict(c)
                 p = {"k": fmt, "src": "ref", "opt": opt, "n": n, "class": rnd.choice(classes), "seed": rnd.getrandbits(32)}
-                if c.get("extreme"):
-                    opt["preset"] = c["preset"]      # (the bridge has no extreme flag in Opt; extreme presets go through mode/nice/depth rows)
                 if fmt == "xz":
                     opt["check"] = rnd.choice(list(CHECK_ID))
                     opt["filters"] = rnd.choice(REF_CHAINS)
@@ -1728,7 +1735,7 @@ def family_ref_to_ours(ctx, j, quick, rnd, pool):
         if not (r1["ref"]["ok"] and r1["ref"]["len"] == r1["content_lens"][0]):
             raise ToolError(f"liblzma does not decode its own stream of {s['id']}: {r1['ref']}")
         fc = "+".join(f["t"] for f in opt.get("filters") or []) or "none"
-        j.classes.add(("ref_to_ours", s["fmt"], p["src"], opt.get("preset"), fc, opt.get("check"), opt.get("mf"), opt.get("mode"),
+        j.classes.add(("ref_to_ours", s["fmt"], p["src"], opt.get("preset"), bool(opt.get("extreme")), fc, opt.get("check"), opt.get("mf"), opt.get("mode"),
                        (opt.get("lc"), opt.get("lp"), opt.get("pb")), len(p.get("cuts") or []), p.get("hc"), p.get("hu")))
         base = {"family": "ref_to_ours", "fmt": s["fmt"], "src": p["src"], "filters": fc,
                 "size_fields": bool(p.get("hc") or p.get("hu")), "blocks": "multi" if p.get("cuts") else "single"}
